@@ -166,10 +166,8 @@ func cmdCheck(id, tierName string) int {
 	if conc < 1 {
 		conc = 1
 	}
-	perWorkers := (ncpu + conc - 1) / conc
-	if perWorkers < 2 {
-		perWorkers = 2
-	}
+	// every harness may use all cores; the number of solver queries in flight is bounded globally
+	perWorkers := ncpu
 	timeout := 60000
 	maxPaths := envInt("SYMGO_MAXPATHS", 60000)
 	witnessEvery := 4
